@@ -109,8 +109,9 @@ class C11(BaseCheck):
     pending = {}      # conn -> list of (end_offset, tag)
     maxtag = {}
     reuse = 0
-    # A request counts as written at the client's send() event that carried its
-    # last byte (the server may decode it later when the writer was stalled).
+    # A request counts as written from the client's send() event that carried its
+    # FIRST byte (a stalled writer finishes a frame it has begun; the server decodes
+    # it later): a reply frame read after that point answers it.
     sends = {}        # conn -> sorted list of (end_offset, seq)
     for e in env.events:
       if e['kind'] == 'net.send':
@@ -122,7 +123,7 @@ class C11(BaseCheck):
       if k == frame_events and e.get('type', 2) in request_types:
         wseq, wvt = e['seq'], e['vt']
         for end, sq, svt in sends.get(e['conn'], []):
-          if end >= e.get('end', 0):
+          if end > e.get('start', 0):
             wseq, wvt = sq, svt
             break
         timeline.append((wvt, 0, wseq, e))
